@@ -165,7 +165,42 @@ def run(res, tier, replay):
         if why:
             if res.violation("set %d (%s): %s" % (s, kind, why[:300]), sc.text(), key="merge:" + kind): nbad += 1
     res.oblige("search: %d join orders and %d refusal scenarios behave as specified" % (sum(1 for m in meta if m[0] == "order"), sum(1 for m in meta if m[0] == "refuse")), nbad == 0)
-    res.traces += len(scns)
+    # ---- executable model of cabd_merge / cabd_can_merge_folders / extraction over joined sets (Model/CabSet.v) vs the C library
+    from props import cablib
+    ok2, log2, mexe = vlib.build_model_drv()
+    cases = []
+    for i in range(40 if tier == "quick" else 600):
+        cs = gen.cab_set(rng); files = [cs.files[nm] for nm in cs.parts]; k = len(files)
+        if i % 3 == 2: j = rng.randrange(k); files[j] = cablib.damage(rng, files[j])
+        ops = [("o", j) for j in range(k)]
+        order = list(range(1, k))
+        if rng.random() < 0.5: rng.shuffle(order)
+        for j in order: ops.append(("m", j - 1, j, rng.choice(["append", "prepend"])))
+        if rng.random() < 0.4: ops.insert(k + rng.randrange(len(order) + 1), ("m", rng.randrange(k), rng.choice([None, rng.randrange(k)]), "append"))
+        for j in range(k):
+            if rng.random() < 0.6: ops.append(("l", j))
+        for _ in range(rng.randrange(1, 7)): ops.append(("x", rng.randrange(k), rng.randrange(len(cs.members) + 1)))
+        cases.append((files, rng.random() < 0.25, rng.random() < 0.15, rng.choice([4, 7, 64, 4096, 65536]), ops))
+    rc, mo, err = vlib.run_lines(mexe, ["cabset"], [cablib.set_model_line(*c) for c in cases], timeout=3000)
+    ctr = scenario.run_scenarios(exe, [cablib.set_scn(*c) for c in cases])
+    sdiffs = []; unm = 0
+    for c, m, t in zip(cases, mo, ctr):
+        res.evaluations += 1
+        if t.crash or t.hang: continue
+        cc = cablib.set_c_canonical(t)
+        if " 98" in m:
+            unm += 1; kk = m.rfind("#", 0, m.index(" 98"))
+            if cc[:kk] != m[:kk]: sdiffs.append((c, m, cc))
+            continue
+        if cc != m: sdiffs.append((c, m, cc))
+    res.count("setmodel-unmodelled", unm)
+    res.oblige("correspondence: model of cabd_merge / cabd_can_merge_folders / extraction over joined sets = C library on %d sessions (all join orders, refusals, 1/3 with a damaged part)" % len(cases),
+               not sdiffs and len(mo) == len(cases), "%d differ %s" % (len(sdiffs), err[-200:]) if sdiffs or len(mo) != len(cases) else "")
+    for c, m, cc in sdiffs[:2]:
+        a = cc.split("#"); b = m.split("#"); kk = next((i for i in range(min(len(a), len(b))) if a[i] != b[i]), min(len(a), len(b)))
+        res.violation("model of cabinet sets and the C library disagree (step %d %s: C %s | model %s)" % (kk, c[4][kk - 1] if 0 < kk <= len(c[4]) else "", (a[kk] if kk < len(a) else "-")[:100], (b[kk] if kk < len(b) else "-")[:100]),
+                      cablib.set_scn(*c).text(), found_input=False)
+    res.traces += len(scns) + len(cases)
     res.samples = [" | ".join(l for l in s.lines if not l.startswith("file "))[:300] for s in scns[:3]]
     if not proofs_ok: proof_broken(res, "C13")
     return "proof"
